@@ -6,7 +6,7 @@ globals().update(
         pid="C07",
         props=["JaqalProofs/Props/C07.lean"],
         targets=["JaqalProofs.Props.C07"],
-        diffs=[("harness.agents.build_diff", 700, 6000), ("harness.agents.c07_entry", 100, 500), ("harness.agents.c07_edge", 800, 4000), ("harness.agents.c07_scale", 100, 300), ("harness.agents.c07_prebuilt", 100, 400)],
+        diffs=[("harness.agents.build_diff", 700, 6000), ("harness.agents.c07_entry", 100, 500), ("harness.agents.c07_edge", 800, 4000), ("harness.agents.c07_scale", 100, 300), ("harness.agents.c07_prebuilt", 100, 400), ("harness.agents.c07_traps", 500, 3000)],
         trusted=[
             STD_TRUST,
             "hand-written model JaqalModel/Model/Builder.lean of circuitbuilder.Builder (two namespaces, parameter shadowing, block-context markers, the gate memo table threaded as explicit state and keyed exactly as GateMemoizer._make_gate_memo_key does) and the constructors' checks; buildNoMemo is the same builder without the table",
